@@ -12,6 +12,43 @@ sys.path.insert(0, HERE)
 
 ALLOWED_AXIOMS = {'propext', 'Classical.choice', 'Quot.sound'}
 
+def _shrink(prop, f):
+    """minimise a failing dataset: drop families / singleton genes while the property's oracle still fails"""
+    import core, gen, oracles as orc
+    table = {'C01': orc.c01, 'C02': orc.c02, 'C03': orc.c03, 'C04': orc.c04, 'C05': orc.c05, 'C06': orc.c06,
+             'C07': orc.c07, 'C08': orc.c08, 'C10': orc.c10, 'C16': orc.c16}
+    D = f.get('_D')
+    if D is None or prop not in table or not D.families or D.meta.get('nested'):
+        return f
+    oracle = table[prop]
+    def still_fails(E):
+        try:
+            h = core.load_py(E)
+        except Exception:      # noqa
+            return None
+        try:
+            return oracle(E, h)
+        except Exception:      # noqa
+            return None
+    import copy as _copy
+    cur = D; cur_bad = f['clauses']
+    changed = True
+    while changed and len(cur.families) > 1:
+        changed = False
+        for i in range(len(cur.families)):
+            E = gen.Dataset(cur.T, cur.naming)
+            E.families = cur.families[:i] + cur.families[i + 1:]
+            E.species = cur.species
+            E.groups = [g for p, l, _ in E.families for g in gen.encode(cur.T, cur.naming, p, l)]
+            E.meta = dict(cur.meta)
+            bad = still_fails(E)
+            if bad:
+                cur, cur_bad, changed = E, bad, True
+                break
+    if cur is not D:
+        f = dict(f, input=core.dataset_payload(cur), clauses=cur_bad[:5], shrunk='families dropped: %d -> %d' % (len(D.families), len(cur.families)))
+    return f
+
 def _run_shard(prop, tier, seed, k=0, shards=1):
     os.environ['VERIF_SHARD'] = '%d/%d' % (k, shards)
     import props, props2
@@ -124,8 +161,11 @@ def main():
             else:
                 new_fail.append(f)
         if new_fail:
+            # report the smallest failing input found, then try to shrink it further
+            new_fail.sort(key=lambda x: len(x['input'].get('orthoxml', '')) + len(x['input'].get('newick', '')))
             f = new_fail[0]
-            path = core.write_replay(prop, seed, f['case'], dict(kind='property-fails-on-implementation', clauses=f['clauses'],
+            f = _shrink(prop, f)
+            path = core.write_replay(prop, seed, f['case'], dict(kind='property-fails-on-implementation', clauses=f['clauses'], shrunk=f.get('shrunk'),
                                                                   call=f.get('call'), input=f['input'], n_failing_cases=len(new_fail)))
             lines.append('VIOLATION property=%s replay=%s' % (prop, path))
             violations = len(new_fail); exit_code = 1
